@@ -185,8 +185,10 @@ class FieldData:
              raise gfapy.NotUniqueError(
                "The identifier {} is already in use\n".format(value)+
                "Line: {}".format(other))
-    if value is not None and self.vlevel >= 3:
-      # validate before the line is taken out of the registry
+    if value is not None and \
+        (self.vlevel >= 3 or (renaming_connected and self.vlevel >= 1)):
+      # validate before the line is taken out of the registry (the registry
+      # reads the new name, which is parsed with validation at vlevel >= 1)
       self._field_or_default_datatype(fieldname, value)
       gfapy.Field._validate_gfa_field(value, self._field_datatype(fieldname),
           fieldname)
